@@ -293,6 +293,11 @@ def run(ctx):
     from ..lints import check_stale_loop_variables
 
     check_stale_loop_variables(ctx, "C02-D8 loop-variables", ['circuits._matrices', 'circuits._builtin_gates', 'circuits._gates'])
+    from ..lints import check_caches
+
+    # a matrix factory hands out a fresh matrix on every call: a functools cache (also under a module-level alias) makes all gates share one
+    # mutable sympy Matrix, so an in-place edit by one caller changes the matrix every later request receives
+    check_caches(ctx, "C02-D4 computable", ['circuits._matrices', 'circuits._builtin_gates'])
     repo = ctx.repo
     if not self_check():
         ctx.undecided(R5, "exppoly:self-check", "the normal-form engine failed its embedded positive/negative controls")
